@@ -55,7 +55,21 @@ func lower(g *Graph, b *Block, scope string) (entry, exit *Node, exitDefault boo
 	switch b.Kind {
 	case "task":
 		t := g.Add(Task, "", scope)
-		t.Writes = b.Writes
+		for _, w := range b.Writes {
+			if len(w) > 2 && w[:2] == "do" {
+				// a data output: the task writes the data object of that name (declared in the process, id = name)
+				t.Outputs = append(t.Outputs, w)
+				known := false
+				for _, o := range g.Objects {
+					known = known || o.ID == w
+				}
+				if !known {
+					g.Objects = append(g.Objects, DataObject{ID: w, Name: w})
+				}
+				continue
+			}
+			t.Writes = append(t.Writes, w)
+		}
 		return t, t, false
 	case "seq":
 		var first, last *Node
@@ -82,11 +96,20 @@ func lower(g *Graph, b *Block, scope string) (entry, exit *Node, exitDefault boo
 		merge := g.Add(kind, "", scope)
 		joins := 0
 		for i, k := range b.Kids {
-			e, x, d := lower(g, k, scope)
 			var c *Cond
 			if i < len(b.Conds) {
 				c = b.Conds[i]
 			}
+			if k.Kind == "empty" {
+				// a branch without any node: a sequence flow straight from the split to the merge
+				f := g.Connect(split, merge, c)
+				if i == b.Default {
+					split.Default = f.ID
+				}
+				joins++
+				continue
+			}
+			e, x, d := lower(g, k, scope)
 			f := g.Connect(split, e, c)
 			if i == b.Default {
 				split.Default = f.ID
@@ -119,6 +142,10 @@ func lower(g *Graph, b *Block, scope string) (entry, exit *Node, exitDefault boo
 		split := g.Add(And, "", scope)
 		merge := g.Add(And, "", scope)
 		for _, k := range b.Kids {
+			if k.Kind == "empty" {
+				g.Connect(split, merge, nil)
+				continue
+			}
 			e, x, d := lower(g, k, scope)
 			g.Connect(split, e, nil)
 			if x != nil {
@@ -183,6 +210,9 @@ func lower(g *Graph, b *Block, scope string) (entry, exit *Node, exitDefault boo
 
 // T is a convenience constructor.
 func T(writes ...string) *Block { return &Block{Kind: "task", Writes: writes, Default: -1} }
+
+// Empty is a branch without any node (only inside xor / or / and blocks).
+func Empty() *Block { return &Block{Kind: "empty", Default: -1} }
 func Seq(kids ...*Block) *Block { return &Block{Kind: "seq", Kids: kids, Default: -1} }
 
 // Gen is the random program generator state.
